@@ -426,6 +426,8 @@ def check_property(pid, tier):
                 except Exception as e:  # noqa
                     ran, fails, tail = False, [], str(e)
                 fails = [f for f in fails if pid in tests.get(f[0], [pid])]
+                # a listed known finding of the module is not the failing input of this unit
+                fails = [f for f in fails if not _match_known(known, '%s.replay.%s' % (_unit_name(m), f[0]))]
                 if not fails:
                     continue
                 fl = dict(ob='%s.replay.%s' % (u, fails[0][0]), fn=fails[0][0], kind='replay-bounded',
